@@ -256,6 +256,12 @@ func (server *GripServer) BulkAdd(stream gripql.Edit_BulkAddServer) error {
 			continue
 		}
 
+		if element.Vertex == nil && element.Edge == nil {
+			log.WithFields(log.Fields{"graph": element.Graph}).Error("BulkAdd: element has neither vertex nor edge")
+			atomic.AddInt32(&errorCount, 1)
+			continue
+		}
+
 		// create a BulkAdd stream per graph
 		// close and switch when a new graph is encountered
 		if elementStream == nil || element.Graph != graphName {
